@@ -8,10 +8,17 @@ import GridVerif.Gen.MolGrid
 
   Grid spec (shared by `init`, `get`, `integrate`, `savekeys`):
     <store 0|1> <aim> <atnums vec> <ngrids> { <points mat r×3> <weights vec> <center vec> }*
-  aim:  arr <vec> | other | cbZ | cb1 <float> | cbshort
+  aim:  arr <vec> | other | cbZ | cb1 <float> | cbshort | cbarr <vec>
+    cbarr v callable returning the array v, whatever its length (no size check on this route)
     cbZ     callable: aim[j] = 1/(1+atnums[k]) for j in the k-th segment of `indices`
     cb1 c   callable returning the one-element array [c]        (NumPy broadcast)
     cbshort callable returning size-1 ones                       (ValueError)
+
+  `C07.init`, `C07.get`, `C07.integrate`, `C07.savekeys` run the *generated* constructor and
+  accessors (`Gen.MolGrid.init`, `Gen.MolGrid.getAtomicGrid`, `Gen.MolGrid.getItem`: the text
+  translated from the current molgrid.py); `C07.hinit`, `C07.hget` run the hand model
+  (`MolGrid.init`, `MolGrid.getAtomicGrid`, `MolGrid.getItem`) on the same line format. The harness
+  compares both with the implementation.
 
   Fan-out ops work on integer identifiers (which radial grid / preset / sector list an atom
   receives); the abstract atomic-grid constructor records its arguments in the `points` of the
@@ -39,6 +46,9 @@ def pAim : List String → Option (AimArg Pt Float × List String)
   | "cb1" :: c :: rest => do
     let c ← pFloat c
     pure (.callable (fun _ _ _ _ => [c]), rest)
+  | "cbarr" :: rest => do
+    let (a, tl) ← pVec pFloat rest
+    pure (.callable (fun _ _ _ _ => a), tl)
   | "cbshort" :: rest => pure (.callable (fun p _ _ _ => List.replicate (p.length - 1) 1.0), rest)
   | _ => none
 
@@ -70,9 +80,18 @@ def pSpec : List String → Option Spec
     | [] => none
   | [] => none
 
-def Spec.build (s : Spec) : Py (MolGrid Pt Float) := MolGrid.init s.atnums s.grids s.aim s.store
+/-- the generated constructor (`np.zeros` rows are `[0, 0, 0]`) -/
+def Spec.build (s : Spec) : Py (MolGrid Pt Float) :=
+  Gen.MolGrid.init [0.0, 0.0, 0.0] s.atnums s.grids s.aim s.store
+
+/-- the hand model -/
+def Spec.buildH (s : Spec) : Py (MolGrid Pt Float) := MolGrid.init s.atnums s.grids s.aim s.store
 
 def sPts (p : List Pt) : String := sMat sFloat p
+
+def sMol (m : MolGrid Pt Float) : String :=
+  s!"ok {sNats m.indices} {sPts m.points} {sFloats m.weights} {sFloats m.atweights} " ++
+  s!"{sFloats m.aimWeights} {sPts m.atcoords} {if m.atgrids.isSome then 1 else 0}"
 
 def sSub (g : SubGrid Pt Float) : String :=
   s!"ok {if g.isAtom then 1 else 0} {sPts g.points} {sFloats g.weights} {sFloats g.center}"
@@ -131,15 +150,23 @@ def fanoutAnswer (full : Py (MolGrid Nat Nat)) (pre : Bool) (n : Nat)
 def handle : List String → Option String
   | "C07.init" :: rest => do
     let s ← pSpec rest
-    pure (answer s.build fun m =>
-      s!"ok {sNats m.indices} {sPts m.points} {sFloats m.weights} {sFloats m.atweights} " ++
-      s!"{sFloats m.aimWeights} {sPts m.atcoords} {if m.atgrids.isSome then 1 else 0}")
+    pure (answer s.build sMol)
+  | "C07.hinit" :: rest => do
+    let s ← pSpec rest
+    pure (answer s.buildH sMol)
   | "C07.get" :: which :: idx :: rest => do
     let s ← pSpec rest
     let i ← pInt idx
     match which with
-    | "atomic" => pure (answer (do let m ← s.build; m.getAtomicGrid i) sSub)
-    | "item" => pure (answer (do let m ← s.build; m.getItem i) sSub)
+    | "atomic" => pure (answer (do let m ← s.build; Gen.MolGrid.getAtomicGrid m i) sSub)
+    | "item" => pure (answer (do let m ← s.build; Gen.MolGrid.getItem m i) sSub)
+    | _ => none
+  | "C07.hget" :: which :: idx :: rest => do
+    let s ← pSpec rest
+    let i ← pInt idx
+    match which with
+    | "atomic" => pure (answer (do let m ← s.buildH; m.getAtomicGrid i) sSub)
+    | "item" => pure (answer (do let m ← s.buildH; m.getItem i) sSub)
     | _ => none
   | "C07.integrate" :: rest => do
     let (f, r1) ← pVec pFloat rest
